@@ -1,7 +1,7 @@
 (* C17 - VecEnv wrappers keep the contract and transform terminal observations alike.
    Only statements: every proof is [exact <lemma>], followed by Print Assumptions. *)
-From Coq Require Import List ZArith Bool.
-From SB3V Require Import Gen.Frag_stacking Model.Script Model.VecEnv Model.Wrappers Proofs.WrappersProofs.
+From Coq Require Import List ZArith QArith Bool.
+From SB3V Require Import Gen.Frag_stacking Model.Script Model.VecEnv Model.Wrappers Proofs.WrappersProofs Model.RunningMoments Model.VecNorm Proofs.WrapperStackProofs Model.EnvUtil Proofs.EnvUtilProofs.
 Import ListNotations.
 Local Open Scope nat_scope.
 
@@ -100,6 +100,96 @@ Theorem C17_terminal_transform_eq_obs_transform : forall ws sts out t,
 Proof. exact terminal_transform_eq_obs_transform. Qed.
 Print Assumptions C17_terminal_transform_eq_obs_transform.
 
+(* --- round 3: stacks that mix the wrappers above, observation re-encodings and VecNormalize (Model/VecNorm.v of C15,
+       read only).  A layer in its current state transforms per-sub-environment step outputs; stacks are typed chains
+       (layers may change the observation type). --- *)
+Theorem C17_stack_passthrough : forall A C (s : stack A C), all_good A C s -> forall o,
+  g_done (run_stack s o) = g_done o /\ g_tl (run_stack s o) = g_tl o /\ g_rew (run_stack s o) = stack_rew s (g_rew o).
+Proof. exact stack_passthrough. Qed.
+Print Assumptions C17_stack_passthrough.
+
+Theorem C17_stack_terminal_transform : forall A C (s : stack A C), all_good A C s -> forall o t,
+  g_done o = true -> g_term o = Some t ->
+  g_term (run_stack s o) = Some (g_obs (run_stack s (gordinary o t))).
+Proof. exact stack_terminal_transform. Qed.
+Print Assumptions C17_stack_terminal_transform.
+
+Theorem C17_stack_no_terminal : forall A C (s : stack A C), all_good A C s -> forall o,
+  g_term o = None -> g_term (run_stack s o) = None.
+Proof. exact stack_no_terminal. Qed.
+Print Assumptions C17_stack_no_terminal.
+
+(* the layers: every wrapper of Model/Wrappers.v in any state (reward untouched), any re-encoding of observations
+   (reward untouched), VecNormalize with any normaliser N / reward transform rw (reward transformed by rw only) *)
+Theorem C17_layers_are_good :
+  (forall w s, good_layer (wrapper_layer w s) /\ forall r, l_rew (wrapper_layer w s) r = r) /\
+  (forall A B (f : A -> B), good_layer (map_layer f) /\ forall r, l_rew (map_layer f) r = r) /\
+  (forall N rw, good_layer (vn_layer N rw) /\ forall r, l_rew (vn_layer N rw) r = rw r).
+Proof.
+  exact (conj (fun w s => conj (wrapper_layer_good w s) (fun r => eq_refl))
+        (conj (fun A B f => conj (map_layer_good A B f) (fun r => eq_refl))
+              (fun N rw => conj (vn_layer_good N rw) (fun r => eq_refl)))).
+Qed.
+Print Assumptions C17_layers_are_good.
+
+(* the VecNormalize model of C15 (step_outputs), projected on sub-environment i, IS the layer vn_of built from the
+   statistics AFTER this step's update: observations and terminal observations go through the same normalize_obs *)
+Theorem C17_vecnormalize_is_layer : forall p st obs rews dones terms ss sr i x r d t tl,
+  nth_error obs i = Some x -> nth_error rews i = Some r -> nth_error dones i = Some d -> nth_error terms i = Some t ->
+  let st' := fst (step_outputs p st obs rews dones terms ss sr) in
+  let out := snd (step_outputs p st obs rews dones terms ss sr) in
+  let g := l_step (vn_of p st' ss sr) (mk_gout x r d tl t) in
+  nth_error (o_obs out) i = Some (g_obs g) /\ nth_error (o_rews out) i = Some (g_rew g) /\
+  nth_error (o_term out) i = Some (g_term g) /\ g_done g = d /\ g_tl g = tl /\
+  v_obs_rms st' = upd_obs_rms update p st obs.
+Proof. exact vecnormalize_is_layer. Qed.
+Print Assumptions C17_vecnormalize_is_layer.
+
+(* DummyVecEnv (C01's sub_step, any sub-environment) under any stack of good layers still satisfies the auto-reset
+   contract, up to the observation transform of the stack *)
+Theorem C17_contract_under_stack : forall E O A0 I Opt Enc C
+  (e_step : E -> A0 -> E * (O * Z * bool * bool * I)) (e_reset : E -> option Z -> option Opt -> E * (O * I))
+  (enc : O -> Enc) (s : stack Enc C) e ri a e1 obs r term trunc info e' ri' o c,
+  all_good Enc C s ->
+  e_step e a = (e1, (obs, r, term, trunc, info)) ->
+  sub_step e_step e_reset e ri a = (e', ri', o, c) ->
+  let g := run_stack s (base_gout enc o) in
+  g_done g = (term || trunc) /\ g_tl g = (trunc && negb term) /\ g_rew g = stack_rew s (inject_Z r / 4)%Q /\
+  ((term || trunc) = true ->
+     exists obs2 ri2, e_reset e1 None None = (e', (obs2, ri2)) /\ ri' = Some ri2 /\
+       g_term g = Some (g_obs (run_stack s (gordinary (base_gout enc o) (enc obs)))) /\
+       g_obs g = g_obs (run_stack s (base_gout enc o)) /\ so_obs o = obs2) /\
+  ((term || trunc) = false -> g_term g = None /\ so_obs o = obs /\ ri' = ri).
+Proof. exact contract_under_stack. Qed.
+Print Assumptions C17_contract_under_stack.
+
+(* --- vec_env/__init__.py: sync_envs_normalization walks the training and the evaluation chain in lock-step --- *)
+Theorem C17_sync_succeeds_iff_compatible : forall (S : Type) (copy_stats : S -> S -> S) train evalc,
+  (exists r, sync_chain copy_stats train evalc = Some r) <-> compatible train evalc = true.
+Proof. exact (@sync_succeeds_iff_compatible). Qed.
+Print Assumptions C17_sync_succeeds_iff_compatible.
+
+Theorem C17_sync_levels : forall (S : Type) (copy_stats : S -> S -> S) train evalc r,
+  sync_chain copy_stats train evalc = Some r ->
+  length r = length evalc /\
+  forall k,
+    nth_error r k =
+    match nth_error train k, nth_error evalc k with
+    | Some (LNorm st), Some (LNorm se) => Some (LNorm (copy_stats st se))
+    | _, e => e
+    end.
+Proof. exact (@sync_levels). Qed.
+Print Assumptions C17_sync_levels.
+
+(* with the VecNormalize model of C15 as the per-level copy *)
+Theorem C17_sync_levels_vecnorm : forall train evalc r k st se,
+  sync_chain VecNorm.sync train evalc = Some r ->
+  nth_error train k = Some (LNorm st) -> nth_error evalc k = Some (LNorm se) ->
+  exists s', nth_error r k = Some (LNorm s') /\
+    v_obs_rms s' = v_obs_rms st /\ v_ret_rms s' = v_ret_rms st /\ v_returns s' = v_returns se /\ v_training s' = v_training se.
+Proof. exact sync_levels_vecnorm. Qed.
+Print Assumptions C17_sync_levels_vecnorm.
+
 (* --- declared spaces --- *)
 Theorem C17_stacked_space_shape : forall cf ts s,
   ts <> [] -> Forall (fun t => t_shape t = s) ts ->
@@ -173,3 +263,29 @@ Example ex_two_image_keys :
   tr_obs [1%Z; 2%Z] (ODict [(1%Z, ex_t 4); (2%Z, tfull [1; 2; 3] 5%Z); (3%Z, tfull [2] 6%Z)])
   = ODict [(1%Z, mk_tensor [1; 2; 2] [4; 4; 4; 4]%Z); (2%Z, mk_tensor [3; 1; 2] [5; 5; 5; 5; 5; 5]%Z); (3%Z, tfull [2] 6%Z)].
 Proof. reflexivity. Qed.
+
+(* a mixed stack: VecFrameStack(2) -> cells as rational channels -> VecNormalize (mean 1, s 2, clip 10; rewards / 2) *)
+Definition ex_flat (o : vobs) : list Q := match o with OBox t => map inject_Z (t_data t) | ODict _ => [] end.
+Definition ex_N (x : list Q) : list Q := map (fun v => normalize_s v 1%Q 2%Q 10%Q) x.
+Definition ex_mixed : stack vobs (list Q) :=
+  SCons _ _ _ (wrapper_layer (WFrameStack 2 [(0%Z, false)]) [(0%Z, [tfull [1] 0%Z; tfull [1] 3%Z])])
+    (SCons _ _ _ (map_layer ex_flat) (SCons _ _ _ (vn_layer ex_N (fun r => r / 2)%Q) (SNil _))).
+Example ex_mixed_good : all_good _ _ ex_mixed.
+Proof.
+  unfold ex_mixed.
+  apply AGCons; [apply wrapper_layer_good|]. apply AGCons; [apply map_layer_good|].
+  apply AGCons; [apply vn_layer_good|]. apply AGNil.
+Qed.
+Example ex_mixed_run :
+  let g := run_stack ex_mixed (mk_gout (OBox (tfull [1] 9%Z)) (6 # 4)%Q true true (Some (OBox (tfull [1] 5%Z)))) in
+  g_done g = true /\ g_tl g = true /\ (g_rew g == 3 # 4)%Q /\
+  Forall2 Qeq (g_obs g) [(-1 # 2)%Q; 4%Q] /\
+  (match g_term g with Some t => Forall2 Qeq t [1%Q; 2%Q] | None => False end).
+Proof. cbv zeta. vm_compute. repeat split; try reflexivity; repeat constructor; reflexivity. Qed.
+
+Example ex_sync :
+  sync_chain copy_tags [LOther 1%Z; LNorm (Some 10%Z, 11%Z); LNorm (None, 21%Z)] [LOther 2%Z; LNorm (Some 30%Z, 31%Z); LNorm (Some 40%Z, 41%Z); LOther 3%Z]
+  = Some [LOther 2%Z; LNorm (Some 10%Z, 11%Z); LNorm (Some 40%Z, 21%Z); LOther 3%Z] /\
+  sync_chain copy_tags [LNorm (Some 10%Z, 11%Z)] [LOther 2%Z] = None /\
+  compatible [LOther 1%Z; LNorm (Some 10%Z, 11%Z)] [LOther 2%Z; LNorm (Some 30%Z, 31%Z)] = true.
+Proof. repeat split; reflexivity. Qed.
